@@ -29,11 +29,14 @@ pub struct FakeBus {
     /// the next AddMatch is refused with this many to go (a bus may refuse: LimitsExceeded)
     pub reject_adds: u32,
     pub rejected: Vec<String>,
+    /// a name the bus takes away again right behind the reply that grants it (NameLost follows the
+    /// RequestName reply back to back)
+    pub lost_after_grant: Option<String>,
 }
 
 impl FakeBus {
     pub fn new(peer: Peer) -> FakeBus {
-        FakeBus { peer, rules: BTreeMap::new(), add_twice: vec![], remove_unknown: vec![], request_replies: vec![], release_replies: vec![], request_calls: vec![], release_calls: vec![], name_owner: BTreeMap::new(), other_calls: vec![], reject_adds: 0, rejected: vec![] }
+        FakeBus { peer, rules: BTreeMap::new(), add_twice: vec![], remove_unknown: vec![], request_replies: vec![], release_replies: vec![], request_calls: vec![], release_calls: vec![], name_owner: BTreeMap::new(), other_calls: vec![], reject_adds: 0, rejected: vec![], lost_after_grant: None }
     }
 
     /// handle everything zbus wrote since last time
@@ -100,6 +103,10 @@ impl FakeBus {
                 _ => self.peer.error(&m, "org.freedesktop.DBus.Error.UnknownMethod", "unknown", Some(BUS)),
             };
             self.peer.send(&reply);
+            if member == "RequestName" && self.lost_after_grant.as_deref() == Some(arg0.as_str()) {
+                self.lost_after_grant = None;
+                self.bus_signal("NameLost", vec![RVal::S(arg0.clone())], BUS);
+            }
         }
     }
 
@@ -148,7 +155,7 @@ enum NState {
 
 #[derive(Debug, Clone)]
 enum NOp {
-    Request { name: usize, allow_replacement: bool, bus_reply: u32 },
+    Request { name: usize, allow_replacement: bool, bus_reply: u32, lost_behind: bool },
     Release { name: usize, bus_reply: u32 },
     Acquired { name: usize, forged: bool },
     Lost { name: usize, forged: bool },
@@ -166,11 +173,18 @@ pub fn c36_case(src: &mut Src, obs: &mut Obs) -> CaseResult {
     let mut history = vec![];
     let mut state_changes = [0usize; 3];
     let mut forged_between = false;
+    let mut lost_right_behind = false;
     for _ in 0..n {
         // only what a conformant bus can do is generated for the genuine signals
         let name = src.below(3);
         let op = match src.weighted(&[6, 3, 3, 3]) {
-            0 => NOp::Request { name, allow_replacement: src.bool(), bus_reply: 1 + src.below(4) as u32 },
+            0 => {
+                let allow_replacement = src.bool();
+                let bus_reply = 1 + src.below(4) as u32;
+                // a replaceable name may be taken away at once: NameLost right behind the grant
+                let lost_behind = allow_replacement && bus_reply == 1 && st[name] == NState::None && src.chance(90);
+                NOp::Request { name, allow_replacement, bus_reply, lost_behind }
+            }
             1 => NOp::Release { name, bus_reply: 1 + src.below(3) as u32 },
             2 => {
                 let forged = src.chance(120) || !matches!(st[name], NState::Queued { .. });
@@ -183,9 +197,10 @@ pub fn c36_case(src: &mut Src, obs: &mut Obs) -> CaseResult {
         };
         history.push(op.clone());
         match op {
-            NOp::Request { name, allow_replacement, bus_reply } => {
+            NOp::Request { name, allow_replacement, bus_reply, lost_behind } => {
                 let calls_before = bus.request_calls.len();
                 bus.request_replies = vec![bus_reply];
+                bus.lost_after_grant = if lost_behind { Some(NAMES[name].to_string()) } else { None };
                 let c = conn.clone();
                 let flags = if allow_replacement { RequestNameFlags::AllowReplacement.into() } else { enumflags2::BitFlags::empty() };
                 let r = run_op(&mut sched, &mut sch, &mut bus, async move { c.request_name_with_flags(NAMES[name], flags).await.map_err(|e| e.to_string()) });
@@ -225,7 +240,14 @@ pub fn c36_case(src: &mut Src, obs: &mut Obs) -> CaseResult {
                     if old != st[name] {
                         state_changes[name] += 1;
                     }
+                    if lost_behind {
+                        settle(&mut sched, &mut sch, &mut bus);
+                        st[name] = NState::None;
+                        state_changes[name] += 1;
+                        lost_right_behind = true;
+                    }
                 }
+                bus.lost_after_grant = None;
             }
             NOp::Release { name, bus_reply } => {
                 let calls_before = bus.release_calls.len();
@@ -274,6 +296,9 @@ pub fn c36_case(src: &mut Src, obs: &mut Obs) -> CaseResult {
         return Err(Failure::new(format!("match rules added twice {:?} / removed while unknown {:?}; history {history:?}", bus.add_twice, bus.remove_unknown)));
     }
     obs.label(if forged_between { "with-forged-signals" } else { "genuine-only" });
+    if lost_right_behind {
+        obs.label("name-lost-right-behind-the-grant");
+    }
     if state_changes.iter().any(|c| *c >= 2) || forged_between {
         obs.nontrivial(fnv(format!("{history:?}").as_bytes()));
         obs.sample("names", || format!("{history:?}"));
